@@ -238,9 +238,17 @@ pub fn eval_node<F: FnMut(&GraphColoredVertices, &str)>(
                     // get a domain set from EvalContext, can use unwrap as it is previously checked
                     let domain_set = eval_context.domain_raw_sets.get(domain.as_str()).unwrap();
 
+                    // restrict the var domain in unit BDD of the graph
+                    let var_domain = compute_valid_domain_for_var(graph, domain_set, &var);
+
                     // check edge case of an empty domain (in that case we cannot restrict the domain,
-                    // there would be an error)
-                    if domain_set.is_empty() {
+                    // there would be an error); this includes a domain that is non-empty only for
+                    // colors excluded by the domains of enclosing quantifiers
+                    if graph
+                        .unit_colored_vertices()
+                        .intersect(&var_domain)
+                        .is_empty()
+                    {
                         // the variable is no longer free once we leave this node
                         eval_context.free_var_domains.remove(&var);
                         return match op.clone() {
@@ -251,8 +259,6 @@ pub fn eval_node<F: FnMut(&GraphColoredVertices, &str)>(
                         };
                     }
 
-                    // restrict the var domain in unit BDD of the graph
-                    let var_domain = compute_valid_domain_for_var(graph, domain_set, &var);
                     let restricted_graph = restrict_stg_unit_bdd(graph, &var_domain);
 
                     let child_eval = eval_node(
